@@ -38,42 +38,242 @@ type tableFinding struct {
 	detail    string
 }
 
-// checkGuardedTable evaluates one function: lookups/ranges need the mutex held, updates and
-// deletes need it exclusively, and no release may happen between binding a record to the
-// table (lookup, or the update that published it) and a dereference of the record.
-func checkGuardedTable(fn *ssa.Function, sp tableSpec) []tableFinding {
-	var out []tableFinding
+// tableChecker evaluates the guarded-table template over a set of functions. The lock state
+// is computed with function summaries (eng.LockRegions), so that the template gives the same
+// verdict when a critical section — or a part of it — is moved into a helper:
+//
+//   - a helper that returns with the lock held on its success path hands the lock (and the
+//     record it looked up) to its caller;
+//   - a helper all of whose callers are known (eng.LiftSites) starts in the lock state of its
+//     call sites, and a record it receives as a parameter is bound where the callers bound it.
+type tableChecker struct {
+	sp     tableSpec
+	ls     eng.LockSpec
+	lr     *eng.LockRegions
+	entry  map[*ssa.Function]eng.LockState
+	states map[*ssa.Function]map[ssa.Instruction]eng.LockState
+	busy   map[*ssa.Function]bool
+}
+
+func newTableChecker(sp tableSpec) *tableChecker {
 	ls := eng.LockSpec{IsMutex: sp.isMutex}
-	states := eng.LockStates(fn, ls)
-	nLook, nUpd, nDel, nUse := 0, 0, 0, 0
-	defOf := func(v ssa.Value) ssa.Instruction {
-		switch n := v.(type) {
-		case *ssa.Extract:
-			if l, ok := n.Tuple.(*ssa.Lookup); ok && sp.isTable(l.X) {
-				return l
+	return &tableChecker{sp: sp, ls: ls, lr: eng.NewLockRegions(ls), entry: map[*ssa.Function]eng.LockState{},
+		states: map[*ssa.Function]map[ssa.Instruction]eng.LockState{}, busy: map[*ssa.Function]bool{}}
+}
+
+// entryState is the lock state in which fn starts: that of its call sites when they are all
+// known (the weaker one when it is called under the read lock here and the write lock there),
+// "not held" for every other function.
+func (t *tableChecker) entryState(fn *ssa.Function) eng.LockState {
+	if s, ok := t.entry[fn]; ok {
+		return s
+	}
+	if t.busy[fn] {
+		return eng.LockNone
+	}
+	t.busy[fn] = true
+	defer delete(t.busy, fn)
+	st := eng.LockNone
+	if sites := eng.Current.LiftSites(fn); len(sites) > 0 {
+		for i, s := range sites {
+			if _, plain := s.(*ssa.Call); !plain {
+				st = eng.LockNone // go / defer: runs outside the caller's critical section
+				break
 			}
-			if nx, ok := n.Tuple.(*ssa.Next); ok {
-				if rg, ok := nx.Iter.(*ssa.Range); ok && sp.isTable(rg.X) {
-					return nx
-				}
+			cs := t.statesOf(s.Parent())[s]
+			switch {
+			case i == 0:
+				st = cs
+			case cs == st:
+			case (cs == eng.LockShared || cs == eng.LockExcl) && (st == eng.LockShared || st == eng.LockExcl):
+				st = eng.LockShared // called under the read lock here, under the write lock there: held at least shared
+			default:
+				st = eng.LockMixed
 			}
-		case *ssa.Lookup:
-			if sp.isTable(n.X) {
-				return n
-			}
-		case *ssa.Alloc:
-			// a fresh record published into the table
-			var pub ssa.Instruction
-			if n.Referrers() != nil {
-				for _, r := range *n.Referrers() {
-					if mu, ok := r.(*ssa.MapUpdate); ok && mu.Value == ssa.Value(n) && sp.isTable(mu.Map) {
-						pub = mu
-					}
-				}
-			}
-			return pub
 		}
-		return nil
+	}
+	t.entry[fn] = st
+	return st
+}
+
+func (t *tableChecker) statesOf(fn *ssa.Function) map[ssa.Instruction]eng.LockState {
+	if m, ok := t.states[fn]; ok {
+		return m
+	}
+	m := t.lr.States(fn, t.entryState(fn))
+	t.states[fn] = m
+	return m
+}
+
+// binding is the instruction that binds record value v to the table (nil: v is not known to
+// be a record of the table): the lookup / iteration step it was read by, the update that
+// published a fresh record, the call of a helper that returns a bound record, or — for a
+// record parameter of a helper with known callers, all of which pass a bound record — the
+// entry of the helper. bad is non-empty when the record reaches this point across a release
+// of the lock.
+func (t *tableChecker) binding(v ssa.Value, depth int) (def ssa.Instruction, bad string) {
+	sp := t.sp
+	switch n := v.(type) {
+	case *ssa.Extract:
+		if l, ok := n.Tuple.(*ssa.Lookup); ok && sp.isTable(l.X) {
+			return l, ""
+		}
+		if nx, ok := n.Tuple.(*ssa.Next); ok {
+			if rg, ok := nx.Iter.(*ssa.Range); ok && sp.isTable(rg.X) {
+				return nx, ""
+			}
+		}
+		if call, ok := n.Tuple.(*ssa.Call); ok && sp.isRecord(n.Type()) {
+			return t.helperResult(call, n.Index, depth)
+		}
+	case *ssa.Lookup:
+		if sp.isTable(n.X) {
+			return n, ""
+		}
+	case *ssa.Call:
+		if sp.isRecord(n.Type()) {
+			return t.helperResult(n, 0, depth)
+		}
+	case *ssa.Alloc:
+		// a fresh record published into the table
+		var pub ssa.Instruction
+		if n.Referrers() != nil {
+			for _, r := range *n.Referrers() {
+				if mu, ok := r.(*ssa.MapUpdate); ok && mu.Value == ssa.Value(n) && sp.isTable(mu.Map) {
+					pub = mu
+				}
+			}
+		}
+		return pub, ""
+	case *ssa.Parameter:
+		fn := n.Parent()
+		if depth <= 0 || !sp.isRecord(n.Type()) || fn == nil || len(fn.Blocks) == 0 || len(fn.Blocks[0].Instrs) == 0 {
+			return nil, ""
+		}
+		sites := eng.Current.LiftSites(fn)
+		idx := -1
+		for i, p := range fn.Params {
+			if p == n {
+				idx = i
+			}
+		}
+		if len(sites) == 0 || idx < 0 {
+			return nil, ""
+		}
+		for _, s := range sites {
+			args := s.Common().Args
+			if idx >= len(args) {
+				return nil, ""
+			}
+			if _, plain := s.(*ssa.Call); !plain {
+				return nil, ""
+			}
+			b, why := t.boundValue(args[idx], s, depth-1)
+			if !b {
+				return nil, ""
+			}
+			if why != "" {
+				bad = why
+			}
+		}
+		return fn.Blocks[0].Instrs[0], bad
+	}
+	return nil, ""
+}
+
+// boundValue: record value v (possibly a phi) is bound to the table at instruction use of its
+// function; why is non-empty when the lock can be released between the binding and use.
+func (t *tableChecker) boundValue(v ssa.Value, use ssa.Instruction, depth int) (bound bool, why string) {
+	var walk func(v ssa.Value, seen map[ssa.Value]bool)
+	walk = func(v ssa.Value, seen map[ssa.Value]bool) {
+		if seen[v] {
+			return
+		}
+		seen[v] = true
+		if p, ok := v.(*ssa.Phi); ok {
+			for _, e := range p.Edges {
+				walk(e, seen)
+			}
+			return
+		}
+		if d, bad := t.binding(v, depth); d != nil {
+			bound = true
+			if bad != "" {
+				why = bad
+			}
+		}
+	}
+	walk(v, map[ssa.Value]bool{})
+	if !bound {
+		return false, ""
+	}
+	defOf := func(x ssa.Value) ssa.Instruction { d, _ := t.binding(x, depth); return d }
+	if rel := t.lr.ReleasedBetween(v, use, defOf); rel != nil && why == "" {
+		why = "the table's lock is released between looking the record up (or publishing it) and this use: a concurrent removal can take the entry away in between, so the count is subtracted twice or added to an orphan record"
+	}
+	return true, why
+}
+
+// helperResult: result idx of a call of a repository function is a record the callee bound to
+// the table and returns without releasing the lock in between; the call is then the binding.
+func (t *tableChecker) helperResult(call *ssa.Call, idx int, depth int) (ssa.Instruction, string) {
+	g := eng.CalleeFn(call)
+	if g == nil {
+		if mc, ok := call.Call.Value.(*ssa.MakeClosure); ok {
+			g, _ = mc.Fn.(*ssa.Function)
+		}
+	}
+	if depth <= 0 || g == nil || g.Blocks == nil {
+		return nil, ""
+	}
+	bound, bad := false, ""
+	eng.Instrs(g, func(ins ssa.Instruction) {
+		ret, ok := ins.(*ssa.Return)
+		if !ok || ret.Block() == g.Recover {
+			return
+		}
+		res := eng.ReturnResults(ret)
+		if idx >= len(res) || eng.IsNilConst(res[idx]) {
+			return
+		}
+		b, why := t.boundValue(res[idx], ret, depth-1)
+		if b {
+			bound = true
+			if why != "" {
+				bad = "the helper that looks the record up releases the table's lock before handing the record to its caller: a concurrent removal can take the entry away in between"
+			}
+		}
+	})
+	if !bound {
+		return nil, ""
+	}
+	return call, bad
+}
+
+const tableLiftDepth = 3
+
+// check evaluates one function: lookups/ranges need the mutex held, updates and deletes need
+// it exclusively, and no release may happen between binding a record to the table (lookup, or
+// the update that published it) and a dereference of the record (or handing it to a helper).
+func (t *tableChecker) check(fn *ssa.Function) []tableFinding {
+	sp := t.sp
+	var out []tableFinding
+	states := t.statesOf(fn)
+	nLook, nUpd, nDel, nUse := 0, 0, 0, 0
+	isUnlock := func(i ssa.Instruction) bool { return t.lr.MayRelease(i) }
+	use := func(rec ssa.Value, ins ssa.Instruction, what string) {
+		bound, why := t.boundValue(rec, ins, tableLiftDepth)
+		if !bound {
+			return // not a record of the table
+		}
+		nUse++
+		st := states[ins]
+		ok := why == "" && (st == eng.LockShared || st == eng.LockExcl)
+		detail := "the record is " + what + " while the lock is " + st.String()
+		if why != "" {
+			detail = why
+		}
+		out = append(out, tableFinding{fmt.Sprintf("use#%d of a %s record in the critical section of its lookup", nUse, sp.tableName), ins, ok, detail})
 	}
 	eng.Instrs(fn, func(ins ssa.Instruction) {
 		switch n := ins.(type) {
@@ -103,34 +303,49 @@ func checkGuardedTable(fn *ssa.Function, sp tableSpec) []tableFinding {
 				// that a racing first report has just registered and counted on.
 				if _, fresh := n.Value.(*ssa.Alloc); fresh {
 					isLookup := func(i ssa.Instruction) bool {
-						l, ok := i.(*ssa.Lookup)
-						return ok && sp.isTable(l.X) && (l.Index == n.Key || sameLoad(l.Index, n.Key))
+						if l, ok := i.(*ssa.Lookup); ok {
+							return sp.isTable(l.X) && (l.Index == n.Key || sameLoad(l.Index, n.Key))
+						}
+						// a call of an accessor that looks the key up on every path
+						if call, ok := i.(*ssa.Call); ok {
+							return t.looksUp(call, n.Key)
+						}
+						return false
 					}
+					isIns := func(i ssa.Instruction) bool { return i == ins }
 					okCheck := true
 					nLocks := 0
+					// the holds that reach the insert: exclusive acquisitions in this function (written in
+					// place or performed by a helper that returns with the lock held) …
 					eng.Instrs(fn, func(li ssa.Instruction) {
 						lc, isCall := li.(*ssa.Call)
-						if !isCall || !eng.MethodNameIs(lc, "Lock") || !sp.isMutex(eng.Receiver(lc)) {
+						if !isCall {
 							return
 						}
-						isUnlock := func(i ssa.Instruction) bool {
-							uc, ok := i.(*ssa.Call)
-							return ok && eng.MethodNameIs(uc, "Unlock") && sp.isMutex(eng.Receiver(uc))
+						if !(eng.MethodNameIs(lc, "Lock") && sp.isMutex(eng.Receiver(lc))) && !t.acquiresExcl(li) {
+							return
 						}
 						// does this hold reach the insert at all?
-						if eng.ReachAfter(lc, eng.PathQuery{Target: func(i ssa.Instruction) bool { return i == ins }, Avoid: isUnlock}) == nil {
+						if eng.ReachAfter(li, eng.PathQuery{Target: isIns, Avoid: isUnlock}) == nil {
 							return
 						}
 						nLocks++
-						if eng.ReachAfter(lc, eng.PathQuery{Target: func(i ssa.Instruction) bool { return i == ins }, Avoid: func(i ssa.Instruction) bool { return isUnlock(i) || isLookup(i) }}) != nil {
+						if eng.ReachAfter(li, eng.PathQuery{Target: isIns, Avoid: func(i ssa.Instruction) bool { return isUnlock(i) || isLookup(i) }}) != nil {
 							okCheck = false
 						}
 					})
+					// … or the hold in which a helper with known callers is entered
+					if t.entryState(fn) == eng.LockExcl && eng.ReachFromEntry(fn, eng.PathQuery{Target: isIns, Avoid: isUnlock}) != nil {
+						nLocks++
+						if eng.ReachFromEntry(fn, eng.PathQuery{Target: isIns, Avoid: func(i ssa.Instruction) bool { return isUnlock(i) || isLookup(i) }}) != nil {
+							okCheck = false
+						}
+					}
 					// conditional on the lookup: some path from the lookup leaves the hold without inserting
 					cond := false
 					eng.Instrs(fn, func(li ssa.Instruction) {
 						if isLookup(li) && states[li] == eng.LockExcl {
-							if eng.ReachAfter(li, eng.PathQuery{Target: eng.IsExit, Avoid: func(i ssa.Instruction) bool { return i == ins }}) != nil {
+							if eng.ReachAfter(li, eng.PathQuery{Target: eng.IsExit, Avoid: isIns}) != nil {
 								cond = true
 							}
 						}
@@ -145,45 +360,74 @@ func checkGuardedTable(fn *ssa.Function, sp tableSpec) []tableFinding {
 				st := states[ins]
 				out = append(out, tableFinding{fmt.Sprintf("delete#%d from %s under the write lock", nDel, sp.tableName), ins, st == eng.LockExcl,
 					"an entry is removed while the lock is " + st.String()})
+				return
+			}
+			// a record handed to a repository function is used there
+			if g := eng.CalleeFn(n); g != nil && g.Blocks != nil {
+				for _, a := range n.Call.Args {
+					if sp.isRecord(a.Type()) {
+						use(a, ins, "handed to "+g.Name())
+					}
+				}
 			}
 		case *ssa.FieldAddr:
-			if !sp.isRecord(n.X.Type()) {
-				return
+			if sp.isRecord(n.X.Type()) {
+				use(n.X, ins, "dereferenced")
 			}
-			// only records that come from the table (directly or through phis)
-			bound := false
-			var walk func(v ssa.Value, seen map[ssa.Value]bool)
-			walk = func(v ssa.Value, seen map[ssa.Value]bool) {
-				if seen[v] {
-					return
-				}
-				seen[v] = true
-				if p, ok := v.(*ssa.Phi); ok {
-					for _, e := range p.Edges {
-						walk(e, seen)
-					}
-					return
-				}
-				if defOf(v) != nil {
-					bound = true
-				}
-			}
-			walk(n.X, map[ssa.Value]bool{})
-			if !bound {
-				return
-			}
-			nUse++
-			st := states[ins]
-			rel := eng.ReleasedBetween(n.X, ins, ls, defOf)
-			ok := rel == nil && (st == eng.LockShared || st == eng.LockExcl)
-			detail := "the record is dereferenced while the lock is " + st.String()
-			if rel != nil {
-				detail = "the table's lock is released between looking the record up (or publishing it) and this use: a concurrent removal can take the entry away in between, so the count is subtracted twice or added to an orphan record"
-			}
-			out = append(out, tableFinding{fmt.Sprintf("use#%d of a %s record in the critical section of its lookup", nUse, sp.tableName), ins, ok, detail})
 		}
 	})
 	return out
+}
+
+// looksUp: call runs a repository function that, on every path, looks up the table under the
+// parameter bound to key.
+func (t *tableChecker) looksUp(call *ssa.Call, key ssa.Value) bool {
+	g := eng.CalleeFn(call)
+	if g == nil || len(g.Blocks) == 0 {
+		return false
+	}
+	found := false
+	eng.Instrs(g, func(i ssa.Instruction) {
+		l, ok := i.(*ssa.Lookup)
+		if !ok || !t.sp.isTable(l.X) {
+			return
+		}
+		p, isP := l.Index.(*ssa.Parameter)
+		if !isP {
+			return
+		}
+		for k, q := range g.Params {
+			if q == p && k < len(call.Call.Args) && (call.Call.Args[k] == key || sameLoad(call.Call.Args[k], key)) {
+				if eng.ReachFromEntry(g, eng.PathQuery{Target: eng.IsExit, Avoid: func(x ssa.Instruction) bool { return x == i }}) == nil {
+					found = true
+				}
+			}
+		}
+	})
+	return found
+}
+
+// acquiresExcl: ins is a call of a helper that returns with the lock held exclusively (on
+// some of its returns) when entered in the state before ins.
+func (t *tableChecker) acquiresExcl(ins ssa.Instruction) bool {
+	c, ok := ins.(*ssa.Call)
+	if !ok {
+		return false
+	}
+	g := eng.CalleeFn(c)
+	if g == nil || g.Blocks == nil {
+		return false
+	}
+	eff := t.lr.Effect(g, t.statesOf(ins.Parent())[ins])
+	if eff == nil || !eff.Touches {
+		return false
+	}
+	return (eff.Uniform && eff.State == eng.LockExcl) || (eff.Keyed && (eff.OnTrue == eng.LockExcl || eff.OnFalse == eng.LockExcl))
+}
+
+// checkGuardedTable evaluates the template on one function with a fresh checker.
+func checkGuardedTable(fn *ssa.Function, sp tableSpec) []tableFinding {
+	return newTableChecker(sp).check(fn)
 }
 
 func c08(c *eng.Ctx) {
@@ -207,11 +451,12 @@ func c08(c *eng.Ctx) {
 		tableName: "instanceStates",
 	}
 	// ---- R1 over every function of the package that touches the table
+	tc := newTableChecker(sp)
 	for _, fn := range c.W.FuncsOf(pkgRLStoreFC) {
 		if fn.Name() == "newMaxInflightFlowControl" {
 			continue // constructor: the object is not shared yet
 		}
-		for _, f := range checkGuardedTable(fn, sp) {
+		for _, f := range tc.check(fn) {
 			c.Check("R1", fn, f.construct, f.at.Pos(), f.ok, f.detail)
 		}
 	}
@@ -220,15 +465,24 @@ func c08(c *eng.Ctx) {
 	if ss == nil {
 		return
 	}
+	// SetState together with the helpers its body may have been spread over
+	region := c.W.Region(ss)
 	addFn := c.MustMethod(pkgRLStoreFC, "globalMaxInflight", "add")
 	isCountAddr := func(v ssa.Value) bool { return eng.FieldAddrOf(v, tInstanceState, "count") }
 	isAddTotal := func(ins ssa.Instruction) bool {
 		ci, ok := ins.(ssa.CallInstruction)
 		return ok && addFn != nil && eng.CalleeFn(ci) == addFn
 	}
+	regionCalls := func(names ...string) []ssa.CallInstruction {
+		var out []ssa.CallInstruction
+		for _, fn := range region {
+			out = append(out, eng.CallsTo(fn, names...)...)
+		}
+		return out
+	}
 	// the swap
 	var swap *ssa.Call
-	for _, ci := range eng.CallsTo(ss, "sync/atomic.SwapInt32") {
+	for _, ci := range regionCalls("sync/atomic.SwapInt32") {
 		if isCountAddr(eng.Args(ci)[0]) {
 			swap, _ = ci.(*ssa.Call)
 		}
@@ -237,19 +491,29 @@ func c08(c *eng.Ctx) {
 		c.Fail("R1b", ss, "swap of the instance count", ss.Pos(), "no atomic swap of instanceState.count found")
 		return
 	}
+	// body: the function holding the report's decision logic (SetState itself unless the tail
+	// was extracted into a helper)
+	body := swap.Parent()
 	cur := eng.Args(swap)[1]
 	// ---- R1b
 	{
-		x := eng.ReachAfter(swap, eng.PathQuery{Target: eng.IsExit, Avoid: isAddTotal})
+		always := eng.AlwaysAfter(swap, isAddTotal)
 		var first ssa.Instruction = eng.ReachAfter(swap, eng.PathQuery{Target: isAddTotal})
-		ok := x == nil && first != nil
+		ok := always && first != nil
 		if ok {
 			d, isB := eng.Args(first.(ssa.CallInstruction))[0].(*ssa.BinOp)
 			ok = isB && d.Op == token.SUB && d.X == cur && d.Y == ssa.Value(swap)
 		}
 		c.Check("R1b", ss, "swap ⇒ add(current − old)", swap.Pos(), ok, "after the instance count is replaced the running total must be adjusted by exactly current − old on every path")
 	}
-	for _, ci := range eng.CallsTo(ss, "sync/atomic.AddInt32") {
+	// the value add() returned for this report
+	var addRes ssa.Value
+	if x := eng.ReachAfter(swap, eng.PathQuery{Target: isAddTotal}); x != nil {
+		addRes = eng.ResultValue(x.(ssa.CallInstruction))
+	}
+	// adjustments of the instance count after the swap (rollbacks)
+	nRollback := 0
+	for _, ci := range regionCalls("sync/atomic.AddInt32") {
 		if !isCountAddr(eng.Args(ci)[0]) {
 			continue
 		}
@@ -261,85 +525,120 @@ func c08(c *eng.Ctx) {
 		}
 		c.Check("R1b", ss, "count adjusted ⇒ total adjusted by the same amount", ci.Pos(), paired, "an adjustment of the instance count must be followed on every path by add() of the same amount on the total")
 		// ---- R2
-		if eng.ReachAfter(swap, eng.PathQuery{Target: func(i ssa.Instruction) bool { return i == ci.(ssa.Instruction) }}) != nil {
-			neg, isNeg := a.(*ssa.UnOp)
-			ok := isNeg && neg.Op == token.SUB && eng.GuardedBy(ci, func(r eng.Rel) bool {
-				z, isZ := eng.IntConst(r.Y)
-				return r.X == neg.X && isZ && ((z == 0 && r.Op == token.GTR) || (z == 1 && r.Op == token.GEQ))
-			})
-			c.Check("R2", ss, "rollback undoes increases only", ci.Pos(), ok, "after the limit was lowered the total exceeds it: a rollback not restricted to δ > 0 also undoes every report that lowers an instance's count, so the total never comes down")
+		if !c08After(swap, ci) {
+			continue
 		}
-	}
-	// an increase that overflows the limit must be undone: some rollback of the instance count exists after the swap
-	nRollback := 0
-	for _, ci := range eng.CallsTo(ss, "sync/atomic.AddInt32") {
-		if isCountAddr(eng.Args(ci)[0]) && eng.ReachAfter(swap, eng.PathQuery{Target: func(i ssa.Instruction) bool { return i == ci.(ssa.Instruction) }}) != nil {
-			nRollback++
-			// the rollback is decided on the result of the atomic add (count − max after adding), not on a separate pre-check
-			var addRes ssa.Value
-			if x := eng.ReachAfter(swap, eng.PathQuery{Target: isAddTotal}); x != nil {
-				addRes = eng.ResultValue(x.(ssa.CallInstruction))
-			}
-			onOverflow := addRes != nil && eng.GuardedBy(ci, func(r eng.Rel) bool {
-				z, isZ := eng.IntConst(r.Y)
-				return r.X == addRes && isZ && z == 0 && r.Op == token.GTR
-			})
-			c.Check("R2", ss, "overflowing increase is rolled back on the add's own result", ci.Pos(), onOverflow,
-				"the decision to undo must use the value returned by the atomic add of this report; a separate read of the total (check-then-act) lets concurrent reports of different instances all pass and together exceed the limit")
-		}
+		nRollback++
+		neg, isNeg := a.(*ssa.UnOp)
+		ok := isNeg && neg.Op == token.SUB && eng.HoldsAt(ci, func(r eng.Rel) bool {
+			r = eng.NormRel(r)
+			z, isZ := eng.IntConst(r.Y)
+			return c08SameVal(r.X, neg.X) && isZ && ((z == 0 && r.Op == token.GTR) || (z == 1 && r.Op == token.GEQ))
+		})
+		c.Check("R2", ss, "rollback undoes increases only", ci.Pos(), ok, "after the limit was lowered the total exceeds it: a rollback not restricted to δ > 0 also undoes every report that lowers an instance's count, so the total never comes down")
+		// an increase that overflows the limit must be undone, and the rollback is decided on the result
+		// of the atomic add (count − max after adding), not on a separate pre-check
+		onOverflow := addRes != nil && eng.HoldsAt(ci, func(r eng.Rel) bool {
+			r = eng.NormRel(r)
+			z, isZ := eng.IntConst(r.Y)
+			return c08SameVal(r.X, addRes) && isZ && ((z == 0 && r.Op == token.GTR) || (z == 1 && r.Op == token.GEQ))
+		})
+		c.Check("R2", ss, "overflowing increase is rolled back on the add's own result", ci.Pos(), onOverflow,
+			"the decision to undo must use the value returned by the atomic add of this report; a separate read of the total (check-then-act) lets concurrent reports of different instances all pass and together exceed the limit")
 	}
 	if nRollback == 0 {
 		c.Fail("R2", ss, "overflowing increase is rolled back on the add's own result", swap.Pos(),
 			"after swap+add no path undoes an increase that pushed the total over the limit: with concurrent reports (or a pre-check that raced) the accepted counts sum above the global limit")
 	}
 	// removal: delete paired with add(−count of the removed record)
-	for _, ci := range eng.Calls(ss) {
-		if !isBuiltin(ci, "delete") || !sp.isTable(ci.Common().Args[0]) {
-			continue
-		}
-		ok := false
-		key := ci.Common().Args[1]
-		for _, ac := range eng.Calls(ss) {
-			if !isAddTotal(ac) {
+	for _, rf := range region {
+		for _, ci := range eng.Calls(rf) {
+			if !isBuiltin(ci, "delete") || !sp.isTable(ci.Common().Args[0]) {
 				continue
 			}
-			neg, isNeg := eng.Args(ac)[0].(*ssa.UnOp)
-			if !isNeg || neg.Op != token.SUB {
-				continue
-			}
-			// −(count of a record looked up under the same key)
-			fromRecord := c.Slicer().WithArgs().DerivesFrom(neg.X, func(v ssa.Value) bool {
-				if e, isE := v.(*ssa.Extract); isE {
-					if l, isL := e.Tuple.(*ssa.Lookup); isL && sp.isTable(l.X) && l.Index == key {
-						return true
+			ok := false
+			key := ci.Common().Args[1]
+			for _, af := range region {
+				for _, ac := range eng.Calls(af) {
+					if !isAddTotal(ac) {
+						continue
+					}
+					neg, isNeg := eng.Args(ac)[0].(*ssa.UnOp)
+					if !isNeg || neg.Op != token.SUB {
+						continue
+					}
+					// −(count of a record looked up under the same key)
+					fromRecord := c.Slicer().WithArgs().DerivesFrom(neg.X, func(v ssa.Value) bool {
+						if e, isE := v.(*ssa.Extract); isE {
+							if l, isL := e.Tuple.(*ssa.Lookup); isL && sp.isTable(l.X) && (l.Index == key || c08SameVal(l.Index, key)) {
+								return true
+							}
+						}
+						return false
+					}) && c.Slicer().WithArgs().DerivesFrom(neg.X, func(v ssa.Value) bool { return isCountAddr(v) })
+					// same exclusive region: no release between delete and add (either order)
+					if fromRecord && c08SameHold(tc, ci, ac) {
+						ok = true
 					}
 				}
-				return false
-			}) && c.Slicer().WithArgs().DerivesFrom(neg.X, func(v ssa.Value) bool { return isCountAddr(v) })
-			// same exclusive region: no release between delete and add (either order)
-			ls := eng.LockSpec{IsMutex: sp.isMutex}
-			sameRegion := eng.ReachAfter(ci, eng.PathQuery{Target: func(i ssa.Instruction) bool { return i == ac.(ssa.Instruction) }, Avoid: ls.IsRelease}) != nil ||
-				eng.ReachAfter(ac, eng.PathQuery{Target: func(i ssa.Instruction) bool { return i == ci.(ssa.Instruction) }, Avoid: ls.IsRelease}) != nil
-			if fromRecord && sameRegion {
-				ok = true
 			}
+			c.Check("R1b", ss, "removal ⇒ add(−count of the removed record)", ci.Pos(), ok, "removing an instance subtracts exactly the count recorded for it, in the same exclusive section as the removal")
 		}
-		c.Check("R1b", ss, "removal ⇒ add(−count of the removed record)", ci.Pos(), ok, "removing an instance subtracts exactly the count recorded for it, in the same exclusive section as the removal")
 	}
 
 	// ---- R3
+	// the request id and the result positions as seen by the body
 	reqID := ssa.Value(ss.Params[2])
+	accIdx, errIdx := 0, 2
+	if body != ss {
+		reqID = nil
+		for _, p := range body.Params {
+			if c08Up(p) == ssa.Value(ss.Params[2]) {
+				reqID = p
+			}
+		}
+		var fwd bool
+		accIdx, errIdx, fwd = c08Forwarded(ss, body)
+		if reqID == nil || !fwd {
+			c.Undecided("R3", ss, "request-id test", body.Pos(), "the report's decision logic sits in a helper whose request id parameter or results cannot be related to SetState's")
+			c08Acquire(c)
+			c08TokenBucket(c)
+			return
+		}
+	}
 	var idLoad *ssa.Call
-	for _, ci := range eng.CallsTo(ss, "sync/atomic.LoadInt64") {
+	for _, ci := range eng.CallsTo(body, "sync/atomic.LoadInt64") {
 		if eng.FieldAddrOf(eng.Args(ci)[0], tInstanceState, "requestId") {
 			idLoad, _ = ci.(*ssa.Call)
 		}
+	}
+	// touching the counts or the recorded id: directly, or inside a called repository function
+	touchesState := func(i ssa.Instruction) bool {
+		direct := func(x ssa.Instruction) bool {
+			if x == ssa.Instruction(swap) || isAddTotal(x) {
+				return true
+			}
+			if !eng.IsCall(x, "sync/atomic.StoreInt64", "sync/atomic.AddInt32", "sync/atomic.SwapInt32", "sync/atomic.StoreInt32") {
+				return false
+			}
+			a0 := eng.Args(x.(ssa.CallInstruction))[0]
+			return isCountAddr(a0) || eng.FieldAddrOf(a0, tInstanceState, "requestId") || eng.FieldAddrOf(a0, tGlobalMaxInflight, "count")
+		}
+		if direct(i) {
+			return true
+		}
+		if ci, isC := i.(*ssa.Call); isC {
+			if g := eng.CalleeFn(ci); g != nil && g.Blocks != nil && g.Pkg == ss.Pkg {
+				return c13ContainsCall(g, func(x ssa.CallInstruction) bool { return direct(x) }, 2)
+			}
+		}
+		return false
 	}
 	if idLoad == nil {
 		c.Fail("R3", ss, "request-id test", ss.Pos(), "the recorded request id is never read")
 	} else {
 		found := false
-		for _, b := range ss.Blocks {
+		for _, b := range body.Blocks {
 			iff, ok := b.Instrs[len(b.Instrs)-1].(*ssa.If)
 			if !ok {
 				continue
@@ -364,14 +663,12 @@ func c08(c *eng.Ctx) {
 				c.Fail("R3", ss, "request-id test", iff.Pos(), "the comparison must refuse ids that are not strictly newer (requestId <= recorded)")
 				continue
 			}
-			touch := eng.ReachFromBlock(stale, eng.PathQuery{Target: func(i ssa.Instruction) bool {
-				return i == ssa.Instruction(swap) || isAddTotal(i) || eng.IsCall(i, "sync/atomic.StoreInt64", "sync/atomic.AddInt32")
-			}})
+			touch := eng.ReachFromBlock(stale, eng.PathQuery{Target: touchesState})
 			retOK := false
 			if x := eng.ReachFromBlock(stale, eng.PathQuery{Target: eng.IsExit}); x != nil {
 				if ret, isR := x.(*ssa.Return); isR {
 					res := eng.ReturnResults(ret)
-					retOK = len(res) == 3 && eng.IsBoolConst(res[0], false) && c.Slicer().DerivesFrom(res[2], func(v ssa.Value) bool {
+					retOK = len(res) > accIdx && len(res) > errIdx && eng.IsBoolConst(res[accIdx], false) && c.Slicer().DerivesFrom(res[errIdx], func(v ssa.Value) bool {
 						g, isG := v.(*ssa.Global)
 						return isG && g.Name() == "RequestIDTooOld"
 					})
@@ -384,15 +681,15 @@ func c08(c *eng.Ctx) {
 		}
 		// the id test precedes the swap whenever an id is given
 		var idGiven *ssa.If
-		for _, b := range ss.Blocks {
+		for _, b := range body.Blocks {
 			if iff, ok := b.Instrs[len(b.Instrs)-1].(*ssa.If); ok {
-				r := eng.RelOf(iff.Cond, true)
+				r := eng.NormRel(eng.RelOf(iff.Cond, true))
 				if z, isZ := eng.IntConst(r.Y); r.X == reqID && isZ && z == 0 && r.Op == token.GTR {
 					idGiven = iff
 				}
 			}
 		}
-		before := eng.ReachFromEntry(ss, eng.PathQuery{
+		before := eng.ReachFromEntry(body, eng.PathQuery{
 			Target: func(i ssa.Instruction) bool { return i == ssa.Instruction(swap) },
 			Avoid:  func(i ssa.Instruction) bool { return i == ssa.Instruction(idLoad) },
 			BlockEdge: func(from *ssa.BasicBlock, idx int) bool {
@@ -401,36 +698,43 @@ func c08(c *eng.Ctx) {
 		}) == nil
 		c.Check("R3", ss, "id test before the swap", swap.Pos(), before, "whenever a request id is given the swap is reached only through the id test")
 		// the stored id is the request's, stored only on the newer edge
-		for _, ci := range eng.CallsTo(ss, "sync/atomic.StoreInt64") {
+		for _, ci := range regionCalls("sync/atomic.StoreInt64") {
 			if !eng.FieldAddrOf(eng.Args(ci)[0], tInstanceState, "requestId") {
 				continue
 			}
-			ok := eng.Args(ci)[1] == reqID && eng.GuardedBy(ci, func(r eng.Rel) bool {
+			ok := c08SameVal(eng.Args(ci)[1], reqID) && eng.HoldsAt(ci, func(r eng.Rel) bool {
 				return (r.X == reqID && r.Y == ssa.Value(idLoad) && r.Op == token.GTR) || (r.X == ssa.Value(idLoad) && r.Y == reqID && r.Op == token.LSS)
 			})
 			c.Check("R3", ss, "recorded id only moves forward", ci.Pos(), ok, "")
 		}
 	}
 	// accept = true only when not over the limit
-	var addAfterSwap ssa.Value
-	if x := eng.ReachAfter(swap, eng.PathQuery{Target: isAddTotal}); x != nil {
-		addAfterSwap = eng.ResultValue(x.(ssa.CallInstruction))
-	}
 	nAcc := 0
-	eng.Instrs(ss, func(ins ssa.Instruction) {
+	eng.Instrs(body, func(ins ssa.Instruction) {
 		ret, ok := ins.(*ssa.Return)
-		if !ok || ret.Block() == ss.Recover {
+		if !ok || ret.Block() == body.Recover {
 			return
 		}
 		res := eng.ReturnResults(ret)
-		if len(res) != 3 || eng.IsBoolConst(res[0], false) {
+		if len(res) <= accIdx || !c08MayBeTrue(res[accIdx], 3) {
 			return
 		}
 		nAcc++
-		ok2 := eng.IsBoolConst(res[0], true) && addAfterSwap != nil && eng.GuardedBy(ret, func(r eng.Rel) bool {
+		// the answer can be true only where add(δ) reported ≤ 0: a fact of the returning block, or —
+		// for a computed answer — a fact implied by the answer being true
+		notOver := func(r eng.Rel) bool {
+			r = eng.NormRel(r)
 			z, isZ := eng.IntConst(r.Y)
-			return r.X == addAfterSwap && isZ && z == 0 && (r.Op == token.LEQ || r.Op == token.LSS)
-		})
+			return r.X == addRes && isZ && ((z == 0 && (r.Op == token.LEQ || r.Op == token.LSS)) || (z == 1 && r.Op == token.LSS))
+		}
+		ok2 := addRes != nil && eng.HoldsAt(ret, notOver)
+		if !ok2 && addRes != nil && !eng.IsBoolConst(res[accIdx], true) {
+			for _, r := range eng.ImpliedRels(res[accIdx], true) {
+				if notOver(r) {
+					ok2 = true
+				}
+			}
+		}
 		c.Check("R3", ss, "accept only when total ≤ limit", ret.Pos(), ok2, "accept=true is returned only on the edge where add(δ) reports count − max ≤ 0")
 	})
 	if nAcc == 0 {
@@ -475,7 +779,177 @@ func sameExpr(a, b ssa.Value) bool {
 	return sameLoad(a, b)
 }
 
-// c08Acquire: R4 and R5 in DoAcquire (and its closures).
+// c08Up resolves a value of a helper whose callers are all known to the value it stands for in
+// the callers: a parameter that receives the same value at every call site (recursively).
+func c08Up(v ssa.Value) ssa.Value {
+	for d := 0; d < eng.LiftDepth; d++ {
+		p, ok := v.(*ssa.Parameter)
+		if !ok || p.Parent() == nil {
+			return v
+		}
+		sites := eng.Current.LiftSites(p.Parent())
+		idx := -1
+		for i, q := range p.Parent().Params {
+			if q == p {
+				idx = i
+			}
+		}
+		if len(sites) == 0 || idx < 0 {
+			return v
+		}
+		var w ssa.Value
+		for _, s := range sites {
+			args := s.Common().Args
+			if idx >= len(args) || (w != nil && w != args[idx]) {
+				return v
+			}
+			w = args[idx]
+		}
+		v = w
+	}
+	return v
+}
+
+// c08SameVal: the same SSA value, possibly seen from inside a helper through its parameters.
+func c08SameVal(a, b ssa.Value) bool {
+	if a == nil || b == nil {
+		return false
+	}
+	return a == b || c08Up(a) == c08Up(b)
+}
+
+// c08LiftTo returns the instructions of function fn that stand for ins: ins itself when it sits
+// in fn, else the calls in fn of the helper (with known callers) that contains ins.
+func c08LiftTo(ins ssa.Instruction, fn *ssa.Function, depth int) []ssa.Instruction {
+	if ins.Parent() == fn {
+		return []ssa.Instruction{ins}
+	}
+	if depth <= 0 {
+		return nil
+	}
+	var out []ssa.Instruction
+	for _, s := range eng.Current.GuardSites(ins.Parent()) {
+		out = append(out, c08LiftTo(s, fn, depth-1)...)
+	}
+	return out
+}
+
+// c08After: b can execute after a — in a's function, or in a helper called from there after a.
+func c08After(a, b ssa.Instruction) bool {
+	for _, site := range c08LiftTo(b, a.Parent(), eng.LiftDepth) {
+		site := site
+		if eng.ReachAfter(a, eng.PathQuery{Target: func(i ssa.Instruction) bool { return i == site }}) != nil {
+			return true
+		}
+	}
+	return false
+}
+
+// c08SameHold: a and b execute in one hold of the table's lock — one follows the other without a
+// release in between (a helper call during which the lock may be released counts as a release).
+func c08SameHold(tc *tableChecker, a, b ssa.Instruction) bool {
+	try := func(x, y ssa.Instruction) bool {
+		for _, site := range c08LiftTo(y, x.Parent(), eng.LiftDepth) {
+			site := site
+			if eng.ReachAfter(x, eng.PathQuery{
+				Target: func(i ssa.Instruction) bool { return i == site },
+				Avoid:  func(i ssa.Instruction) bool { return i != site && tc.lr.MayRelease(i) },
+			}) == nil {
+				continue
+			}
+			if site != y {
+				// y sits in a helper: no release between the helper's entry and y
+				if tc.lr.ReleaseFromEntry(y.Parent(), y) != nil {
+					continue
+				}
+			}
+			return true
+		}
+		return false
+	}
+	return try(a, b) || try(b, a)
+}
+
+// c08MayBeTrue: boolean v can be true — it is not the constant false, nor the result of a
+// repository function all of whose returns give (recursively) false at that position
+// (`return f.remove(instance)` with remove answering (false, -1, nil) everywhere).
+func c08MayBeTrue(v ssa.Value, depth int) bool {
+	if eng.IsBoolConst(v, false) {
+		return false
+	}
+	call, idx := eng.CallResultOf(v)
+	if call == nil || depth <= 0 {
+		return true
+	}
+	if idx < 0 {
+		idx = 0
+	}
+	g := call.Call.StaticCallee()
+	if g == nil || g.Blocks == nil {
+		return true
+	}
+	may := false
+	eng.Instrs(g, func(ins ssa.Instruction) {
+		ret, ok := ins.(*ssa.Return)
+		if !ok || ret.Block() == g.Recover {
+			return
+		}
+		res := eng.ReturnResults(ret)
+		if idx >= len(res) || c08MayBeTrue(res[idx], depth-1) {
+			may = true
+		}
+	})
+	return may
+}
+
+// c08Forwarded: SetState returns the results of the helper `body` unchanged; it gives the result
+// positions of the accept flag and of the error in body's signature.
+func c08Forwarded(ss, body *ssa.Function) (accIdx, errIdx int, ok bool) {
+	rs := body.Signature.Results()
+	accIdx, errIdx = -1, -1
+	for i := 0; i < rs.Len(); i++ {
+		if b, isB := rs.At(i).Type().Underlying().(*types.Basic); isB && b.Info()&types.IsBoolean != 0 && accIdx < 0 {
+			accIdx = i
+		}
+		if c13IsErrorType(rs.At(i).Type()) {
+			errIdx = i
+		}
+	}
+	if accIdx < 0 || errIdx < 0 {
+		return 0, 0, false
+	}
+	sites := eng.CallsToFn(ss, body)
+	if len(sites) == 0 {
+		return 0, 0, false
+	}
+	for _, s := range sites {
+		call, isCall := s.(*ssa.Call)
+		if !isCall {
+			return 0, 0, false
+		}
+		bad := eng.ReachAfter(call, eng.PathQuery{Target: func(i ssa.Instruction) bool {
+			ret, isR := i.(*ssa.Return)
+			if !isR {
+				return false
+			}
+			res := eng.ReturnResults(ret)
+			if len(res) != 3 {
+				return true
+			}
+			isExt := func(v ssa.Value, idx int) bool {
+				e, isE := v.(*ssa.Extract)
+				return isE && e.Tuple == ssa.Value(call) && e.Index == idx
+			}
+			return !isExt(res[0], accIdx) || !isExt(res[2], errIdx)
+		}})
+		if bad != nil {
+			return 0, 0, false
+		}
+	}
+	return accIdx, errIdx, true
+}
+
+// c08Acquire: R4 and R5 in DoAcquire (its closures and extracted helpers).
 func c08Acquire(c *eng.Ctx) {
 	da := c.MustMethod(pkgLimiter, "rateLimiter", "DoAcquire")
 	if da == nil {
@@ -485,15 +959,17 @@ func c08Acquire(c *eng.Ctx) {
 		return eng.FieldLoadOf(v, pkgV1alpha1+".RateLimitAcquireRequest", "Tokens")
 	}
 	n := 0
-	for _, fn := range eng.WithClosures(da) {
+	// DoAcquire with its closures and the helpers the per-item work may have been moved into
+	for _, fn := range c.W.Region(da) {
 		for _, ci := range eng.Calls(fn) {
 			if !eng.IsCall(ci, "("+tGlobalFC+").SetState", "("+tGlobalFC+").TryAcquireN") {
 				continue
 			}
 			n++
-			ok := eng.GuardedBy(ci, func(r eng.Rel) bool {
+			ok := eng.HoldsAt(ci, func(r eng.Rel) bool {
+				r = eng.NormRel(r)
 				z, isZ := eng.IntConst(r.Y)
-				return tokensField(r.X) && isZ && z == 0 && r.Op == token.GEQ
+				return tokensField(c08Up(r.X)) && isZ && ((z == 0 && r.Op == token.GEQ) || (z == -1 && r.Op == token.GTR))
 			})
 			c.Check("R4", fn, "negative tokens refused before "+ci.Common().Method.Name(), ci.Pos(), ok, "a negative count would be taken for the removal of the instance (SetState) or refill the bucket (AllowN with a negative n)")
 		}
@@ -509,7 +985,7 @@ func c08Acquire(c *eng.Ctx) {
 			if p, isP := amount.(*ssa.Phi); isP {
 				shape = true
 				for _, e := range p.Edges {
-					if tokensField(e) {
+					if tokensField(c08Up(e)) {
 						continue
 					}
 					if q, isQ := e.(*ssa.BinOp); isQ && q.Op == token.QUO && q.X == ssa.Value(p) {
@@ -519,7 +995,7 @@ func c08Acquire(c *eng.Ctx) {
 					}
 					shape = false
 				}
-			} else if tokensField(amount) {
+			} else if tokensField(c08Up(amount)) {
 				shape = true
 			}
 			c.Check("R5", fn, "amount tried ∈ {asked, asked/2ᵏ}", call.Pos(), shape, "each grant lies between 0 and the amount asked")
@@ -528,7 +1004,7 @@ func c08Acquire(c *eng.Ctx) {
 			for _, st := range eng.StoresToField([]*ssa.Function{fn}, pkgV1alpha1+".RateLimitAcquireResult", "Limit") {
 				if st.Val == amount && eng.ReachAfter(call, eng.PathQuery{Target: func(i ssa.Instruction) bool { return i == ssa.Instruction(st) }}) != nil {
 					// guarded by the Accept value that was set from this call
-					g := eng.GuardedBy(st, func(r eng.Rel) bool {
+					g := eng.HoldsAt(st, func(r eng.Rel) bool {
 						return eng.IsBoolConst(r.Y, true) && r.Op == token.EQL && c.Slicer().DerivesFrom(r.X, func(v ssa.Value) bool { return v == ssa.Value(call) })
 					})
 					if g {
@@ -672,6 +1148,56 @@ func (t *T) badWrite(k string) {
 	t.m[k] = &rec{}
 	t.mu.RUnlock()
 }
+func (t *T) rlockRec(k string) (*rec, bool) {
+	t.mu.RLock()
+	r, ok := t.m[k]
+	if !ok { t.mu.RUnlock(); return nil, false }
+	return r, true
+}
+func (t *T) goodHelper(k string) int {
+	r, ok := t.rlockRec(k)
+	if !ok { return 0 }
+	defer t.mu.RUnlock()
+	return r.n
+}
+func (t *T) rlockRecPtr(k string) *rec {
+	t.mu.RLock()
+	if r, ok := t.m[k]; ok && r != nil { return r }
+	t.mu.RUnlock()
+	return nil
+}
+func (t *T) goodHelperNil(k string) int {
+	r := t.rlockRecPtr(k)
+	if r == nil { return 0 }
+	n := r.n
+	t.mu.RUnlock()
+	return n
+}
+func (t *T) lookupUnlocked(k string) (*rec, bool) {
+	t.mu.RLock()
+	r, ok := t.m[k]
+	t.mu.RUnlock()
+	if !ok { return nil, false }
+	return r, true
+}
+func (t *T) badHelper(k string) int {
+	r, ok := t.lookupUnlocked(k)
+	if !ok { return 0 }
+	t.mu.RLock()
+	defer t.mu.RUnlock()
+	return r.n
+}
+func (t *T) badHelperNoTest(k string) int {
+	r, _ := t.rlockRec(k)
+	defer t.mu.RUnlock()
+	return r.n
+}
+func (t *T) badHelperReleased(k string) int {
+	r, ok := t.rlockRec(k)
+	if !ok { return 0 }
+	t.mu.RUnlock()
+	return r.n
+}
 func (t *T) badInsert(k string) int {
 	t.mu.RLock()
 	r, ok := t.m[k]
@@ -702,7 +1228,9 @@ func c08Fixtures(c *eng.Ctx) {
 		tableName: "m",
 	}
 	// the fixture mutex is fx.Mu, not sync.RWMutex: adapt through a wrapper spec
-	for name, want := range map[string]bool{"bad": false, "good": true, "badWrite": false, "badInsert": false} {
+	for name, want := range map[string]bool{"bad": false, "good": true, "badWrite": false, "badInsert": false,
+		// lock handed over by a helper (function summaries)
+		"goodHelper": true, "goodHelperNil": true, "badHelper": false, "badHelperNoTest": false, "badHelperReleased": false} {
 		fn := eng.FxMethod(p, "T", name)
 		all := true
 		n := 0
